@@ -54,6 +54,24 @@ CLAIMED = {
         "plain-text names/values; Lua through offline stand-ins; the documented clamp of numeric names > 1000 is a listed finding.",
         "DESIGN.md §5 C14",
     ),
+    "C11": (
+        ["Backup", "MC_Backup", "Gen_Backup", "Trace_Backup"],
+        "TLA+ crash model of the database files (main, -wal, -shm, backup, temp) with one action per file-visible step of open/backup/overwrite/commit/close and a Crash action at every step; "
+        "TLC checks 'fresh => visible = expected'; the real flows are killed at every executed source line (sys.settrace + os._exit) in child processes, reopened in another process and "
+        "compared with the model by observed file state; observed file-state traces validated by TLC",
+        "Bounded-exhaustive model checking over every call order and crash position (3-4 consecutive process runs) plus fault enumeration of the real code: kill at every executed line of "
+        "create_db/backup_db/close_db_conn/add_page/overwrite flows (quick: stride + step boundaries; thorough: every line, two levels of crashes), reopen, compare pages and integrity_check with the model.",
+        "process death (os._exit), not power loss; SQLite WAL semantics as encoded (validated by replay); deviation switches StaleWalKept/BackupNotAtomic kept for Demo configs.",
+        "DESIGN.md §5 C11, notes/C11.md",
+    ),
+    "C20": (
+        ["Workers", "MC_Workers", "Gen_Workers", "Trace_Workers"],
+        "TLA+ model of N worker processes (start-up restore steps, connect, schema, reads, bootstrap-page write, commit) under SQLite WAL locking rules; TLC explores all interleavings of 2-3 workers; "
+        "TLC-generated schedules are replayed on real forked processes under harness-side schedule control (wrappers on os/sqlite3 operations), recorded (process, op, result) traces validated by a TLC trace spec; free-running stress with 2..16 workers",
+        "Bounded-exhaustive interleavings in the model; schedule replay + trace validation on the real code; stress runs. Two listed findings (restore race on start-up, bootstrap write under an open cursor) are reported as KNOWN-FINDING; any failure not explained by them is a VIOLATION.",
+        "schedule points are the wrapped operations; WAL mode; existing populated database; stress linearisation approximate (re-validated over interval-compatible orders).",
+        "DESIGN.md §5 C20, notes/C20.md",
+    ),
 }
 NOT_YET = "check not built yet in this round (see DESIGN.md §10 build order); nothing is claimed for it"
 
